@@ -1652,4 +1652,38 @@ example :
     chatPrompt ⟨true, false, 0, 100⟩ (fun _ => 1) (fun i => i == 0) [⟨.user, txt bHi, []⟩, ⟨.user, txt bHi, []⟩] = .execFail 0 ∧
     chatPrompt ⟨true, false, 0, 100⟩ (fun _ => 1) (fun _ => false) [] = .panicEmpty := by decide
 
+
+/-! ### refinement to the specification, in one statement (round 7) -/
+
+/-- **chatPrompt refines its specification** (current /repo variant; every conversation, context length, cost
+    function): if nothing fails — and `chatPrompt_total` / `errors_are_justified` say exactly when that is — the
+    outcome is `.ok q n sys ret imgs` with every component in closed form or characterised up to the tags it owns:
+    `n = specCut` (walk back from the latest message while the next longer run fits), `q` = the measurements that
+    implies, `sys` = the system messages before `n`, `imgs = specImagesFrom` (images of `msgs[n:]`, id = position),
+    `ret` = `msgs[n:]` message by message (role, images, literal text) with exactly the tags of its own images added
+    (`Owned`), and the latest message is the last one handed to the template. -/
+theorem chatPrompt_refines_spec (hv : cfg.fixed = true) (hne : msgs ≠ []) (hbad : ∀ i, bad i = false)
+    (himg : cfg.mllama = true → ∀ m ∈ msgs, m.images.length ≤ 1)
+    (hok : ∀ m ∈ msgs, ∀ im ∈ m.images, imgOk cfg im) :
+    ∃ q sys ret imgs,
+      let n := specCut (fits cfg cost msgs) (msgs.length - 1)
+      chatPrompt cfg cost bad msgs = .ok q n sys ret imgs ∧
+      n < msgs.length ∧
+      q = (msgs.length - 1 - n) + (if n = 0 then 0 else 1) ∧
+      sys = systemsBefore msgs n ∧
+      imgs = specImagesFrom cfg 0 ((msgs.drop n).flatMap (·.images)) ∧
+      AllSame (msgs.drop n) ret ∧ Owned 0 (msgs.drop n) ret := by
+  obtain ⟨q, n, sys, ret, imgs, h⟩ := chatPrompt_total (cost := cost) hne hbad himg hok
+  have hn := cut_is_spec h
+  refine ⟨q, sys, ret, imgs, ?_⟩
+  simp only
+  rw [← hn]
+  exact ⟨h, start_lt h, tokenizer_calls h, (system_kept_fixed h hv).1, images_are_spec h,
+    retained_is_suffix_in_order h, tags_in_owner h⟩
+
+
+/-- non-vacuity: the hypotheses hold for `nvconv` on a projector model (and the outcome is the one computed above) -/
+example : nvconv ≠ [] ∧ (∀ m ∈ nvconv, ∀ im ∈ m.images, imgOk ⟨true, false, 2, 1600⟩ im) :=
+  ⟨by decide, fun _ _ _ _ => Or.inl rfl⟩
+
 end OllamaVerif.C19
